@@ -80,3 +80,75 @@ class IsClique(Contract):
 
 
 register(IsClique())
+
+
+class FGToMarkovModel(Contract):
+    """FactorGraph.to_markov_model (structure): the Markov network has the variables of the factor scopes as nodes and an edge between
+    two different variables exactly when some factor has both in its scope; ValueError exactly when the number of non-variable
+    nodes differs from the number of factors.  The factor graph is not modified.  (Factor objects are opaque; their scope() is a
+    duplicate-free list of names; check_model() of the factor graph is an assumed pure callee; that every factor is handed over
+    exactly once is decided by the bounded groups.)"""
+    pure = True
+    file = "pgmpy/models/FactorGraph.py"
+    qual = "FactorGraph.to_markov_model"
+
+    scope = z3.Function("opaque_scope", Opaque, set_sort(Atom))
+
+    def variants(self, ex):
+        from vf.pyvc.engine import OpaqueFn
+        g = new_graph("FactorGraph", "fg", directed=False, latents=False)
+        L = Coll("list", Opaque, z3.Const("factors", set_sort(Opaque)))
+        L.len_z = z3.Int("n_factors")
+        g.fields["factors"] = L
+        g.fields["__opaque__"] = {"check_model": OpaqueFn("fg_check_model", B, pure=True)}
+        yield "any", {"self": g}, {}
+
+    def pre(self, ex, st, args):
+        from vf.pyvc.engine import nonempty
+        g = args["self"]
+        L = g.fields["factors"]
+        return z3.And(wf_graph(g), L.len_z >= 0, (L.len_z == 0) == z3.Not(nonempty(L.mem, Opaque)))
+
+    def snapshot(self, ex, st, args):
+        return graph_snapshot(args["self"])
+
+    def varnodes(self, args):
+        x, f = fresh("x", Atom), fresh("f", Opaque)
+        F = args["self"].fields["factors"].mem
+        return z3.Lambda([x], z3.Exists([f], z3.And(F[f], self.scope(f)[x])))
+
+    def raises(self, ex, st, args):
+        g = args["self"]
+        x = fresh("x", Atom)
+        V = self.varnodes(args)
+        others = z3.Lambda([x], z3.And(N_(g, x), z3.Not(V[x])))
+        return {"ValueError": ex.lib.card(ex, Coll("set", Atom, others), st) != g.fields["factors"].len_z}
+
+    def on_raise(self, ex, st, args, old, exc):
+        return graph_unchanged(args["self"], old)
+
+    def post(self, ex, st, args, old, result):
+        if not isinstance(result, Obj) or result.fields.get("@directed", True):
+            return z3.BoolVal(False)
+        F = args["self"].fields["factors"].mem
+        V = self.varnodes(args)
+        a, b, f = fresh("a", Atom), fresh("b", Atom), fresh("f", Opaque)
+        return {"nodes-are-the-scope-variables": z3.ForAll([a], result.fields["@nodes"][a] == V[a]),
+                "edges-join-co-scoped-variables": z3.ForAll([a, b], result.fields["@E"][a, b] ==
+                                                            z3.And(a != b, z3.Exists([f], z3.And(F[f], self.scope(f)[a], self.scope(f)[b])))),
+                "frame": z3.And(graph_unchanged(args["self"], old), z3.BoolVal(result is not args["self"]))}
+
+    # loop 0: for factor in self.factors
+    def inv0(self, ex, st, args, old, ghost):
+        mm = st.env["mm"]
+        done = ghost["done"]
+        V = self.varnodes(args)
+        a, b, f = fresh("a", Atom), fresh("b", Atom), fresh("f", Opaque)
+        return z3.And(graph_unchanged(args["self"], old),
+                      z3.ForAll([a], mm.fields["@nodes"][a] == V[a]),
+                      z3.ForAll([a, b], mm.fields["@E"][a, b] == z3.And(a != b, z3.Exists([f], z3.And(done[f], self.scope(f)[a], self.scope(f)[b])))))
+
+    invariants = property(lambda self: {0: self.inv0})
+
+
+register(FGToMarkovModel())
